@@ -3,6 +3,7 @@ import Percival.Proofs.HttpSamples
 import Percival.Proofs.HttpRes
 import Percival.Proofs.HttpStep
 import Percival.Proofs.HttpReader
+import Percival.Proofs.HttpReaderRun
 /-!
 # C08 — the HTTP client is memory-safe and terminates cleanly on any server byte stream
 
@@ -444,5 +445,64 @@ example : Geo NetbufRead.init ∧ NetbufRead.init.pending = .none ∧
     SameGeo (initReader {} []) NetbufRead.init ∧
     Geo { NetbufRead.init with pending := .read, waitlen := 5 } :=
   ⟨rel_init.geo, rfl, ⟨rfl, rfl, rfl⟩, ⟨rel_init.geo.len, Nat.le_refl _, Nat.zero_le _⟩⟩
+
+open Percival.Model Percival.Model.HttpStep Percival.Proofs.HttpReader Percival.Proofs.HttpStep
+  Percival.Proofs.NetbufRead in
+open Percival.Spec.ByteStream (delivered) in
+/-- **The scripted reader of `pmodel http` refines the proved model of `netbuf_read.c`, for every script and every
+wait** (the statement `exec_reader_refines_netbuf_partial` left open; round 2).  Whenever the reader has the geometry
+of a consistent `NetbufRead.R` with no wait outstanding and `rest` are the bytes of the server's stream not yet
+received, then for every `c ≤` buffered and every `k`: `readerWait rd c k` answers `a` (`more e` / `eof` / `err`)
+exactly as `Model.NetbufRead` does on `netbuf_read_consume(c)`, `netbuf_read_wait(k)` and then — chosen by the same
+script — either the immediate callback or a sequence of transport completions `data d₁ … data dₙ [eof | err]`:
+
+* that sequence satisfies the transport contract of C06 (`transportOK`: `1 ≤ |dᵢ| ≤` the space of the request
+  outstanding at that moment) and its bytes are the next bytes of the stream (`delivered evs = rest.take …`);
+* `NetbufRead.run` stays inside its buffer (`.ok`), makes exactly one callback, the last thing it does, with status
+  0 / 1 / -1 for `more` / `eof` / `err`; for `more e` exactly `k + e` bytes are in its window; `eof` / `err` come only
+  with the whole stream received and fewer than `k` bytes buffered;
+* afterwards its window is the old one without its first `c` bytes followed by the bytes received, no wait is
+  outstanding, the geometry is again the reader's and `rest` without the bytes received is what remains — the
+  hypotheses of the next wait (the script position and the configuration are kept), so the statement chains along
+  every sequence of waits the HTTP model issues, and `C07.reader_refines` applies to the concatenated runs.
+
+Hypotheses: nobody cancels between two `recv`s (`cancelRecv = none`: the cancel points are the caller's, not the
+reader's) and the script has no two EAGAINs in a row (`SegOK`, as the generators guarantee: then `fill`'s fuel
+suffices; otherwise `fill` could report a spurious `err`). -/
+theorem exec_reader_refines_netbuf (rd : Reader) (nb : NetbufRead.R) (rest : List UInt8) (c k : Nat)
+    (hgeo : Geo nb) (hp : nb.pending = .none) (heq : SameGeo rd nb) (hc : c ≤ nb.datalen - nb.bufpos)
+    (hcr : rd.cancelRecv = none) (hok : SegOK rd.seg) (hrest : rest.length = rd.remaining) :
+    ∃ rd' a evs nb' outs, readerWait rd c k = (rd', some a) ∧
+      NetbufRead.run nb (.consume c :: .wait k :: evs) = .ok (nb', .none :: .none :: outs) ∧
+      NetbufRead.transportOK nb (.consume c :: .wait k :: evs) ∧
+      (evs = [.fire] ∨ AllNet evs) ∧
+      delivered evs = rest.take (rd.remaining - rd'.remaining) ∧
+      OneCallback evs outs (statusOf a) ∧ (∀ e, a = .more e → nb'.datalen - nb'.bufpos = k + e) ∧
+      (a = .eof ∨ a = .err → rd'.remaining = 0 ∧ nb'.datalen - nb'.bufpos < k) ∧
+      window nb' = (window nb).drop c ++ delivered evs ∧
+      -- the hypotheses of the next wait
+      Geo nb' ∧ nb'.pending = .none ∧ SameGeo rd' nb' ∧
+      (rest.drop (rd.remaining - rd'.remaining)).length = rd'.remaining ∧
+      rd'.cancelRecv = rd.cancelRecv ∧ rd'.seg = rd.seg := by
+  obtain ⟨rd', a, evs, nb', outs, q1, q2, q3, q4, q5, q6, q7, q8, q9, q10, q11, q12, q13⟩ :=
+    readerWait_refines rd nb rest c k hgeo hp heq hc hcr hok hrest
+  obtain ⟨e1, e2, e3⟩ := heq
+  obtain ⟨rd2, a2, w1, hkept, _⟩ := readerWait_spec rd c k (by unfold avail; rw [e2, e3]; exact hc)
+    (by rw [e2, e3]; exact hgeo.pos) (by rw [e1, e3]; exact hgeo.dat) hcr hok
+  rw [q1] at w1
+  simp only [Prod.mk.injEq] at w1
+  obtain ⟨rfl, _⟩ := w1
+  exact ⟨rd', a, evs, nb', outs, q1, q2, q3, q4, q6, q11, q12, q13, q7, q8, q10, q9,
+    by rw [List.length_drop, hrest]; omega, hkept.cancelRecv, hkept.seg⟩
+
+/- the hypotheses hold at the start of a case (here: the 40-byte malformed sample delivered 3 bytes per `recv`), and the
+   first wait is answered from the network, not from the buffer -/
+open Percival.Model Percival.Model.HttpStep Percival.Proofs.HttpReader Percival.Proofs.HttpStep
+  Percival.Proofs.NetbufRead in
+example : Geo NetbufRead.init ∧ NetbufRead.init.pending = .none ∧
+    SameGeo (initReader exMal []) NetbufRead.init ∧ (initReader exMal []).cancelRecv = none ∧
+    SegOK (initReader exMal []).seg ∧ (exMal.data).length = (initReader exMal []).remaining ∧
+    (match (readerWait (initReader exMal []) 0 7).2 with | some (.more e) => e | _ => 99) = 2 :=
+  ⟨rel_init.geo, rfl, ⟨rfl, rfl, rfl⟩, rfl, segOK_of_b _ (by decide +kernel), rfl, by decide +kernel⟩
 
 end Percival.C08
